@@ -1289,6 +1289,33 @@ func c12OnBuffers(c *core.Ctx, root *packages.Package) {
 		})
 		c.Check(have[fld] && dq, "C12.onflush", "JoinNode.Finish#"+fld, fin.Decl.Pos(), "matchPoints caches points in JoinNode.%s and sends them alone once no match can arrive; Finish neither sends nor dequeues what is still cached there (sends: %v, dequeues: %v): with a fill, the last unmatched specific point of every join group is lost when the parents end (end of a replay, a batch task, a stopped task)", fld, have[fld], dq)
 	}
+	// the order: sendSpecificPoint collects into the groups (and may create groups), so everything cached is sent before any
+	// group is told to finish — a group that has run its emitAll never emits what arrives afterwards (seed C12-15-r5)
+	sendAt, finishAt := -1, -1
+	for i, st := range an.Effective(fin.Decl.Body.List) {
+		ast.Inspect(st, func(nd ast.Node) bool {
+			call, ok := nd.(*ast.CallExpr)
+			if !ok {
+				return true
+			}
+			m := core.Callee(info, call)
+			if m == nil {
+				return true
+			}
+			if m.Name() == "sendSpecificPoint" && sendAt < 0 {
+				sendAt = i
+			}
+			if m.Name() == "Finish" && core.RecvTypeName(m) == "joinGroup" && finishAt < 0 {
+				finishAt = i
+			}
+			return true
+		})
+	}
+	if sendAt >= 0 && finishAt >= 0 {
+		c.Check(sendAt < finishAt, "C12.onflush", "JoinNode.Finish#order", fin.Decl.Pos(), "Finish tells the groups to finish before it sends the specific points still cached: those points are collected into groups that have already emitted everything (or into new groups nobody finishes) and are never emitted — with an outer fill the unmatched points at the end of the parents are lost")
+	} else if len(need) > 0 {
+		c.Check(false, "C12.onflush", "JoinNode.Finish#order", fin.Decl.Pos(), "Finish does not both send the cached specific points and finish the groups (send at statement %d, finish at statement %d)", sendAt, finishAt)
+	}
 	// (b)
 	nReads := 0
 	ast.Inspect(mp.Decl.Body, func(nd ast.Node) bool {
